@@ -129,6 +129,24 @@ CHECKS = {
          "adjacent to it: index equality and the finiteness pattern.",
          "Zone classes are represented by one member; the hourly coefficients come from one Chicago fit.",
          "DESIGN.md section 6, C06"),
+ "C04": ("model_checking",
+         "TLA+ model checked by TLC; the complete labelled state graph (-dump dot,actionlabels) is replayed edge by edge against the real classes (model <-> implementation conformance)",
+         "spec/tla/Gate.tla models the gate as object x override flags x storage with actions Fit(kind, ignore), Predict(data type, timezone, ignore), Store; "
+         "TLC checks FailClosed, FitGate, StorePreserves, UnfittedNeverPredicts on all 157 reachable states. Every one of the 2802 edges is then "
+         "executed on DailyModel, BillingModel and HourlyModel for every concrete realisation of the abstract baseline kinds (too short, too long, "
+         "usage gaps / off-cycle read, a month of missing temperature, negative gas, weather-independent noise, threshold-placed poor fit, and "
+         "combinations): the observed outcome class must be the model's and the abstraction of the real object after the call must equal the "
+         "edge's target state. A concrete dataset that does not realise its abstract kind is counted as rejected, never as a pass.",
+         "Abstraction function alpha and the concrete kinds are the trusted bridge; listed in evidence.",
+         "DESIGN.md section 6, C04"),
+ "C05": ("exploration",
+         "exhaustive product: fitted models of every family x reporting sets x every alteration of the observed column; paired runs compared bit for bit",
+         "For daily, billing, hourly, hourly-solar and CalTRACK hourly models fitted on full-year baselines, each of three reporting sets (a week, a month "
+         "with a DST change, a year) is predicted under every alteration of the usage column {x0.5, x7, reversed, shuffled, every 2nd NaN, first half "
+         "NaN, NaN runs of 1/6/24/48 h or 1/3/10 d, all NaN, absent, all zero, negative, constant}; the prediction must equal the identity run's on "
+         "every commonly predicted timestamp, hourly rows must all be predicted, and an alteration must not turn the run into an exception.",
+         "Gap patterns the data class itself refuses are counted (alterations_refused_by_data_class), not judged.",
+         "DESIGN.md section 6, C05"),
 }
 
 NOT_YET = {}
